@@ -111,6 +111,8 @@ theorem mainIter_inv (m : Option Msg) (s : State) (h : Inv s) (hf : s.fsm = .est
   split
   · exact inv_of_ended (onNotify_ended _ _ _ hup)
   · exact inv_of_ended (onNotification_ended _ hup)
+  · exact inv_of_ended (onNotify_ended _ _ _ hup)
+  · exact inv_of_ended (onNotify_ended _ _ _ hup)
   · exact dflt
 
 /-! ## a message is handed to the coroutine -/
